@@ -196,10 +196,9 @@ fn history<S: CredentialStore<PasskeyItem = Passkey> + Sync + Send>(rep: &mut Re
         }
         // unknown key handle fails
         rep.eval();
-        let mut unknown = rng.bytes(handle.len().max(1));
-        if unknown == handle {
-            unknown[0] ^= 1;
-        }
+        // a handle that no registration of this history can have used (registered lengths are
+        // 0, 1, 16, 32, 64, 127, 128, 200 or 255): the in-memory store is keyed by the handle alone
+        let unknown = rng.bytes(*rng.clone().pick(&[2usize, 17, 33, 65, 129]));
         match catch(|| do_auth(auth, 0x03, challenge, app, &unknown, 1, Flags::UP)) {
             Ok(Ok(_)) => rep.violate("u2f authentication with an unknown key handle succeeded", String::new(), case.clone()),
             Ok(Err(_)) => rep.count("unknown_handle_refused"),
